@@ -58,104 +58,87 @@ def r1(R1, R3, cfg, F):
              % (it[0].args[0].get('text') if it else '?', adaptors), b.loc())
     if not (len(it) == 1 and len(nx) == 1):
         return
-    # the per-extension attempt: a call to the local closure with the element produced by next()
-    att = [c for c in b.calls() if c.callee and c.callee.best == 'asset::load_from_source::{closure#0}']
-    if len(att) != 1:
-        R1.unrecognised(cfg, b.path, 'one call of the per-extension closure', b.loc())
+    # the per-extension attempt (a closure / nested fn / plain statements: written in place on the normal form):
+    # source.read(id, ext) -> Ok(content) -> content.with_cow(|c| Loader::load(c, ext)) -> Ok(asset) -> return Ok(asset)
+    nx = nx[0]
+    rd = [c for c in b.calls() if c.callee and c.callee.defp == 'source::Source::read']
+    wc = [c for c in b.calls() if c.callee and c.callee.best == "source::FileContent::<'a>::with_cow"]
+    if len(rd) != 1 or len(wc) != 1:
+        R1.unrecognised(cfg, b.path, 'one Source::read and one FileContent::with_cow per iteration', b.loc())
         return
-    att = att[0]
-    el = b.downcast_source(att.args[1]) if len(att.args) > 1 else None
-    # arg is a 1-tuple built from the Some payload
-    tup1 = agg_direct(b, att.args[1])
-    tup = [tup1] if tup1 is not None else []
-    elok = False
-    if len(tup) == 1 and tup[0]['rv'].get('tuple'):
-        src = b.downcast_source(tup[0]['rv']['ops'][0])
-        if src is None:
-            # through a reborrow of a copy
-            l = op_bare_local(tup[0]['rv']['ops'][0])
-            for d in b.defs_of(l) if l is not None else []:
-                if d[0] == 'stmt' and d[3]['rv']['k'] == 'ref':
-                    src = b.downcast_source({'k': 'copy', 'place': {'l': d[3]['rv']['place']['l'], 'p': []}})
-        elok = bool(src) and src[0] == nx[0].dest['l'] and src[1] == 'Some'
-    R1.check(elok, cfg, b.path, 'tries-the-extension-just-yielded', 'each iteration must try the extension yielded by the iterator', att.loc())
-    sw = b.primary_switch(att.dest['l'])
-    if sw is None:
-        R1.unrecognised(cfg, b.path, 'match on the attempt result', b.loc())
-        return
-    ok_t, err_t = b.variant_edge(sw, 0), b.variant_edge(sw, 1)
-    reach = b.reachable([ok_t])
-    rets = [s for bbx in sorted(reach) for s in b.blocks[bbx]['stmts'] if s['k'] == 'assign' and s['place']['l'] == 0]
-    ok = nx[0].bb not in reach and bool(reach & set(b.return_blocks())) and len(rets) == 1 and rets[0]['rv']['k'] == 'aggregate' and rets[0]['rv'].get('variant_name') == 'Ok'
-    if ok:
-        src = b.downcast_source(rets[0]['rv']['ops'][0])
-        ok = bool(src) and src[0] == att.dest['l'] and src[1] == 'Ok'
-    R1.check(ok, cfg, b.path, 'first-Ok-returns-that-asset', 'the first extension that loads must end the loop and be returned as is', '%s:%s' % (b.file, b.blocks[ok_t]['term']['line']))
-    # Err arm: accumulator = or(err, accumulator) (either receiver order)
+    rd, wc = rd[0], wc[0]
+    strip = common.strip_refs
+    elem = ['call@bb%d' % nx.bb, 'as:Some', '0']
+    R1.check(strip(common.arg_path(rd, 2))[:3] == elem, cfg, b.path, 'tries-the-extension-just-yielded', 'each iteration must try the extension yielded by the iterator', rd.loc())
+    def param_of(op, depth=0):
+        ap = strip(common.deep_path(b, op, at=rd.bb))
+        if ap and ap[0].startswith('call@bb') and depth < 3:
+            site = [c for c in b.calls() if 'call@bb%d' % c.bb == ap[0]]
+            if site and site[0].callee and site[0].callee.name in ('deref', 'as_str', 'as_ref', 'borrow') and site[0].args:
+                return param_of(site[0].args[0], depth + 1)
+        return ap
+    src_ok = param_of(rd.args[0]) == ['arg1'] and param_of(rd.args[1]) == ['arg2']
+    dec_ok = common.arg_path(wc, 0) == ['call@bb%d' % rd.bb, 'as:Ok', '0']
+    R1.check(src_ok and dec_ok, cfg, b.path, 'read(id,ext)?-then-loader-on-its-content', 'an attempt must read exactly (id, ext) and decode exactly the content that was read', rd.loc())
+    lit = agg_direct(b, wc.args[1])
+    lb = F.body(lit['rv']['closure']) if lit is not None and lit['rv'].get('closure') else None
+    if lb:
+        ld = [c for c in lb.calls() if c.callee and c.callee.defp == 'loader::Loader::load']
+        ok = len(ld) == 1 and lb.access_path(ld[0].args[0]) == ['arg2'] and ld[0].dest['l'] == 0 and len(lit['rv']['ops']) >= 1
+        if ok:
+            # the extension given to the loader is the captured one, which is the extension being tried
+            up = lb.origins(ld[0].args[1], passthrough=common.pt_deref)
+            ok = len(up) == 1 and list(up)[0][0] == 'upvar' and strip(common.deep_path(b, lit['rv']['ops'][list(up)[0][1]], at=wc.bb))[:3] == elem
+        R1.check(ok, cfg, lb.path, 'loader-gets-content-and-ext', 'the loader must receive the content unchanged and the extension being tried', lb.loc())
+    else:
+        R1.missing(cfg, 'the closure given to with_cow')
+    # first Ok ends the loop and is returned as is
+    me = ['call@bb%d' % wc.bb, 'as:Ok', '0']
+    oks = [(bb, s) for bb, _, s in b.assigns() if s['place']['l'] == 0 and not s['place']['p'] and s['rv']['k'] == 'aggregate' and s['rv'].get('variant_name') == 'Ok'
+           and common.deep_path(b, s['rv']['ops'][0], at=bb) == me]
+    ok = len(oks) == 1 and common.guarded_by_variant(b, oks[0][0], [['call@bb%d' % wc.bb]], 0) and common.guarded_by_variant(b, oks[0][0], [['call@bb%d' % rd.bb]], 0) \
+        and nx.bb not in b.reachable([oks[0][0]]) and bool(b.reachable([oks[0][0]]) & set(b.return_blocks()))
+    R1.check(ok, cfg, b.path, 'first-Ok-returns-that-asset', 'the first extension that loads must end the loop and be returned as is', rd.loc())
+    # every failed attempt (read error or decoding error) is folded into the accumulated error, and the loop goes on
     orc = [c for c in b.calls() if c.callee and c.callee.best == 'error::ErrorKind::or']
-    okf = len(orc) == 1 and orc[0].bb in b.reachable([err_t]) and orc[0].bb not in b.reachable([0], removed_edges=[(sw, err_t)])
+    err_edges = []
+    for bb, t in b.terms():
+        if t['k'] == 'switch' and not b.blocks[bb]['cleanup'] and bb in b.live_blocks(unwind=False):
+            tst = common.switch_test(b, bb)
+            if tst and tst[0] == 'discr' and common.deep_path(b, tst[1]) in (['call@bb%d' % rd.bb], ['call@bb%d' % wc.bb]):
+                e = b.variant_edge(bb, 1)
+                if e is not None:
+                    err_edges.append(e)
+    okf = len(orc) == 1 and len(err_edges) >= 2
+    why_fold = 'each failing extension must be folded into the accumulated error with ErrorKind::or(new, accumulated) (overwriting loses a more specific earlier error)'
     acc = None
     if okf:
-        srcs = []
-        for a in orc[0].args[:2]:
-            s = b.downcast_source(a)
-            srcs.append(('err', s[0]) if s and s[1] == 'Err' else ('local', op_bare_local(a) if op_bare_local(a) is not None else None))
-        kinds = sorted(k for k, _ in srcs)
-        okf = kinds == ['err', 'local'] and [v for k, v in srcs if k == 'err'] == [att.dest['l']]
+        o = orc[0]
+        pt_err = common.make_pt(r'From<.*>>::from$|^std::convert::From::from$', r'Into<U>>::into$')
+        sides = [b.origins(a, passthrough=pt_err) for a in o.args[:2]]
+        errs = [x for x in sides if x & {('call', rd.bb), ('call', wc.bb)}]
+        accs = [x for x in sides if ('call', o.bb) in x and any(r[0] == 'agg' and b.blocks[r[1]]['stmts'][r[2]]['rv'].get('variant_name') == 'NoDefaultValue' for r in x)]
+        okf = len(errs) == 1 and len(accs) == 1 and nx.bb in b.reachable([o.target])
+        acc = accs[0] if okf else None
         if okf:
-            # the non-err operand is (a move of) the accumulator, and the result is stored back into it
-            other = [a for a in orc[0].args[:2] if not (b.downcast_source(a) or (None, None))[1] == 'Err'][0]
-            accs = {r for r in b.origins(other)}
-            init = [r for r in accs if r[0] == 'agg']
-            okf = len(init) == 1 and b.blocks[init[0][1]]['stmts'][init[0][2]]['rv'].get('variant_name') == 'NoDefaultValue' and ('call', orc[0].bb) in accs
-            acc = b.blocks[init[0][1]]['stmts'][init[0][2]]['place']['l'] if okf else None
-            # and the loop continues
-            okf = okf and nx[0].bb in b.reachable([orc[0].target])
-    why_fold = 'each failing extension must be folded into the accumulated error with ErrorKind::or(new, accumulated) (overwriting loses a more specific earlier error)'
-    if okf:
-        # every way from a failed attempt back to the loop header folds the error ...
-        if nx[0].bb in b.reachable([err_t], removed_blocks=[orc[0].bb]):
-            okf = False
-            why_fold = 'a failed attempt can reach the next iteration without folding its error with ErrorKind::or'
-        # ... and a failed attempt never leaves the loop: the remaining extensions must still be tried
-        elif b.reachable([err_t], removed_blocks=[nx[0].bb]) & set(b.return_blocks()):
-            okf = False
-            why_fold = ('a failed attempt can leave the loop (break / return) before the remaining extensions were tried: a later extension that loads, '
-                        'or default_value, is then decided on an incomplete picture')
-    R1.check(okf, cfg, b.path, 'errors-folded-with-ErrorKind::or', why_fold if len(orc) == 1 else 'each failing extension must be folded into the accumulated error with ErrorKind::or', orc[0].loc() if orc else b.loc())
+            if nx.bb in b.reachable(err_edges, removed_blocks=[o.bb]):
+                okf = False
+                why_fold = 'a failed attempt can reach the next iteration without folding its error with ErrorKind::or'
+            elif b.reachable(err_edges, removed_blocks=[nx.bb]) & set(b.return_blocks()):
+                okf = False
+                why_fold = ('a failed attempt can leave the loop (break / return) before the remaining extensions were tried: a later extension that loads, '
+                            'or default_value, is then decided on an incomplete picture')
+    R1.check(okf, cfg, b.path, 'errors-folded-with-ErrorKind::or', why_fold, orc[0].loc() if orc else b.loc())
     # R3
     dv = [c for c in b.calls() if c.callee and c.callee.defp == 'asset::Asset::default_value']
-    psw = b.primary_switch(nx[0].dest['l'])
-    none_t = b.variant_edge(psw, 0) if psw is not None else None
-    ok = len(dv) == 1 and none_t is not None and dv[0].dest['l'] == 0 and not (b.reachable([none_t], removed_blocks=[dv[0].bb]) & set(b.return_blocks()))
+    ok = len(dv) == 1 and dv[0].dest['l'] == 0 and common.guarded_by_variant(b, dv[0].bb, [['call@bb%d' % nx.bb]], 0)
     if ok:
-        ok = b.origins(dv[0].args[0]) == {('arg', 2)}
+        g = [x for x in common.guards_of(b, dv[0].bb) if x[3][0] == 'discr' and common.deep_path(b, x[3][1]) == ['call@bb%d' % nx.bb]]
+        ok = common.inevitable(b, g, dv[0].bb) and b.origins(dv[0].args[0], passthrough=common.pt_deref) == {('arg', 2)}
         conv = b.call_roots(dv[0].args[1])
         ok = ok and len(conv) == 1 and conv[0].callee.name == 'into' and acc is not None and ('call', orc[0].bb) in b.origins(conv[0].args[0]) \
             and any(r[0] == 'agg' for r in b.origins(conv[0].args[0]))
     R3.check(ok, cfg, b.path, 'default_value(id, accumulated error)-on-exhaustion', 'when no extension loads, T::default_value(id, accumulated error) must decide the result', dv[0].loc() if dv else b.loc())
-    # the per-extension closure: read(id, ext)? then with_cow(|c| Loader::load(c, ext))?
-    cb = F.body('asset::load_from_source::{closure#0}')
-    if not cb:
-        R1.missing(cfg, 'load_from_source::{closure#0}')
-        return
-    rd = [c for c in cb.calls() if c.callee and c.callee.defp == 'source::Source::read']
-    wc = [c for c in cb.calls() if c.callee and c.callee.best == "source::FileContent::<'a>::with_cow"]
-    ok = len(rd) == 1 and len(wc) == 1
-    if ok:
-        ok = cb.access_path(rd[0].args[2]) == ['arg2'] and cb.origins(rd[0].args[1], passthrough=common.pt_deref) == {('upvar', 1)} and cb.origins(rd[0].args[0]) == {('upvar', 0)}
-        # (normal form) the content handed to the loader is the Ok payload of that read, the asset returned the Ok payload of the loader
-        ok = ok and common.deep_path(cb, wc[0].args[0]) == ['call@bb%d' % rd[0].bb, 'as:Ok', '0']
-        rets = [s for _, _, s in cb.assigns() if s['place']['l'] == 0 and s['rv']['k'] == 'aggregate' and s['rv'].get('variant_name') == 'Ok']
-        ok = ok and len(rets) == 1
-        if ok:
-            ok = common.deep_path(cb, rets[0]['rv']['ops'][0]) == ['call@bb%d' % wc[0].bb, 'as:Ok', '0']
-    R1.check(ok, cfg, cb.path, 'read(id,ext)?-then-loader-on-its-content', 'an attempt must read exactly (id, ext) and decode exactly the content that was read', cb.loc())
-    lb = F.body('asset::load_from_source::{closure#0}::{closure#0}')
-    if lb:
-        ld = [c for c in lb.calls() if c.callee and c.callee.defp == 'loader::Loader::load']
-        ok = len(ld) == 1 and lb.access_path(ld[0].args[0]) == ['arg2'] and lb.origins(ld[0].args[1]) == {('upvar', 0)} and ld[0].dest['l'] == 0
-        R1.check(ok, cfg, lb.path, 'loader-gets-content-and-ext', 'the loader must receive the content unchanged and the extension being tried', lb.loc())
     # io errors become Io, loader errors become Conversion
     for frm, var in (('std::io::Error', 'Io'), ('std::boxed::Box<dyn std::error::Error + std::marker::Send + std::marker::Sync>', 'Conversion')):
         fb = [x for x in F.fn_bodies() if x.path.startswith('<error::ErrorKind as std::convert::From<') and x.path.endswith('>::from') and frm.split('<')[0] in x.path]
